@@ -14,7 +14,7 @@ Open Scope Z_scope.
 Section Spec.
 Variable W : world.
 Variable C : cfg.
-Notation Tv := (tv (data W) (src W)).
+Notation Tv := (tv (data W) (src W) (GV W)).
 
 Record sstate := mksst {
   ss_view : option (view (data W) (src W));
@@ -24,6 +24,13 @@ Record sstate := mksst {
   ss_nsg : option (G W) }.
 
 Definition has_src_fields : bool := negb (c_nsrc C =? 0).
+Definition has_gfp_field : bool := c_ngfp C >? 0.
+
+(* what the PDFs read at an evaluation with parameter value x: the global-fit-
+   parameter dependent data field is recalculated for x at every evaluation *)
+Definition full_tv (vw : view (data W) (src W)) (sf : option (src W)) (cs : src W) (x : Z) : Tv :=
+  (vw, (sf, if has_gfp_field then Some (Fg W vw sf cs x) else None)).
+Definition plain_tv (vw : view (data W) (src W)) (sf : option (src W)) : Tv := (vw, (sf, None)).
 
 Definition sinit (s0 : src W) : sstate :=
   mksst None (if has_src_fields then Some s0 else None) s0 None None.
@@ -64,14 +71,14 @@ Definition sstep (s : sstate) (o : op W) : sstate * obs W :=
   match o with
   | InitTrial _ d =>
       let vw := mkview d (ss_cur s) in
-      (mksst (Some vw) (ss_srcf s) (ss_cur s) (Some (vw, ss_srcf s)) None, ONone W)
+      (mksst (Some vw) (ss_srcf s) (ss_cur s) (Some (plain_tv vw (ss_srcf s))) None, ONone W)
   | ChangeSource _ s' =>
       (mksst (ss_view s) (if has_src_fields then Some s' else ss_srcf s) s' (ss_evd s) (ss_nsg s),
        ONone W)
   | Evaluate _ ns x =>
       match ss_view s, ss_evd s with
       | Some vw, Some evd =>
-          let cur := (vw, ss_srcf s) in
+          let cur := full_tv vw (ss_srcf s) (ss_cur s) x in
           (mksst (ss_view s) (ss_srcf s) (ss_cur s) (ss_evd s)
                  (match pure_nsg cur evd ns x with Some g => Some g | None => ss_nsg s end),
            OEval W (pure_eval cur evd ns x))
@@ -79,7 +86,7 @@ Definition sstep (s : sstate) (o : op W) : sstate * obs W :=
       end
   | NsGrad2 _ ns =>
       (s, ONs2 W (match ss_nsg s, ss_view s with
-                  | Some g, Some vw => Ok (g2 W g (vw, ss_srcf s) ns)
+                  | Some g, Some vw => Ok (g2 W g (plain_tv vw (ss_srcf s)) ns)
                   | None, _ => Err RuntimeError
                   | _, _ => Err TypeError
                   end))
@@ -97,6 +104,18 @@ Fixpoint src_after (s0 : src W) (ops : list (op W)) : src W :=
   | [] => s0
   | ChangeSource _ s :: r => src_after s r
   | _ :: r => src_after s0 r
+  end.
+
+(* histories that follow the API protocol "after change_shg_mgr a new trial
+   should be initialized": no evaluation between a source change and the next
+   initialize_trial (dirty = a source change is pending) *)
+Fixpoint wseq (dirty : bool) (ops : list (op W)) : bool :=
+  match ops with
+  | [] => true
+  | InitTrial _ _ :: r => wseq false r
+  | ChangeSource _ _ :: r => wseq true r
+  | Evaluate _ _ _ :: r => negb dirty && wseq dirty r
+  | NsGrad2 _ _ :: r => wseq dirty r
   end.
 
 (* operations that neither start a trial nor change the sources *)
